@@ -16,8 +16,8 @@ log=$out/confirm.log; : > $log
 ( cd $wt && git apply $out/patch.diff ) >>$log 2>&1 || { echo "PATCH DOES NOT APPLY"; git -C /repo worktree remove --force $wt; exit 3; }
 ( cd $wt && go build ./... && go test -vet=off -count=1 ./... ) >>$log 2>&1; suite=$?
 cp $out/demo_test.go $wt/$pkg/$demoname
-( cd $wt && go test -vet=off -count=1 -run 'Seed|seed|ZZ' ./$pkg ) >>$log 2>&1; with=$?
-( cd $wt && git apply -R $out/patch.diff && go test -vet=off -count=1 -run 'Seed|seed|ZZ' ./$pkg ) >>$log 2>&1; without=$?
+( cd $wt && go test -vet=off -count=1 -run 'Seed|seed|ZZ|Demo' ./$pkg ) >>$log 2>&1; with=$?
+( cd $wt && git apply -R $out/patch.diff && go test -vet=off -count=1 -run 'Seed|seed|ZZ|Demo' ./$pkg ) >>$log 2>&1; without=$?
 git -C /repo worktree remove --force $wt
 echo "confirm: suite_with_change=$suite (0 wanted) demo_with_change=$with (nonzero wanted) demo_without_change=$without (0 wanted)" | tee -a $log
 if [ $suite -ne 0 ] || [ $with -eq 0 ] || [ $without -ne 0 ]; then echo "SEED NOT CONFIRMED"; exit 4; fi
